@@ -645,20 +645,32 @@ fn list_payload(cfg: Cfg, sym: (u16, u16), big: bool) -> (Payload, i64) {
 }
 
 fn sub_lists(tier: Tier) -> Sub {
+    sub_lists_with("skip-vs-read-attribute-lists", tier == Tier::Thorough, Cfg::all())
+}
+
+/// Quick tier only: the length-3 lists under a diagonal of 8 of the 64 encodings (every
+/// version, format, address size and byte order occurs).
+fn sub_lists3_diagonal() -> Sub {
+    let all = Cfg::all();
+    let diag: Vec<Cfg> = (0..all.len()).filter(|k| k % 9 == 0).map(|k| all[k]).collect();
+    sub_lists_with("skip-vs-read-attribute-lists-len3-diagonal", true, diag)
+}
+
+fn sub_lists_with(name: &str, three: bool, cfgs: Vec<Cfg>) -> Sub {
     let syms = list_symbols();
-    let cfgs = Cfg::all();
     let ns = syms.len() as u64;
-    let three = tier == Tier::Thorough;
+    let ncfg = cfgs.len() as u64;
     // quick: case = (s1, cfg), inner s2 in syms+none; thorough: case = (s1, s2|none, cfg), inner s3 in syms+none
-    let len = if three { ns * (ns + 1) * 64 } else { ns * 64 };
+    let len = if three { ns * (ns + 1) * ncfg } else { ns * ncfg };
     let bound = format!(
-        "every attribute list of length 1..={} over {} form symbols ({} forms + indirect->{{data1,block1,udata,GNU_str_index}}) ({} lists) x 64 encodings x 2 payload sets (shortest / long: max integers, 130-byte blocks, 10-byte LEBs), each list followed by a sentinel attribute: read_attribute one by one vs skip_attributes vs read_entry, advertised sizes",
+        "every attribute list of length 1..={} over {} form symbols ({} forms + indirect->{{data1,block1,udata,GNU_str_index}}) ({} lists) x {} encodings x 2 payload sets (shortest / long: max integers, 130-byte blocks, 10-byte LEBs), each list followed by a sentinel attribute: read_attribute one by one vs skip_attributes vs read_entry, advertised sizes",
         if three { 3 } else { 2 },
         ns,
         ns - 4,
-        if three { ns + ns * ns + ns * ns * ns } else { ns + ns * ns }
+        if three { ns + ns * ns + ns * ns * ns } else { ns + ns * ns },
+        ncfg
     );
-    Sub::new("skip-vs-read-attribute-lists", len, &bound, move |ctx, i| {
+    Sub::new(name, len, &bound, move |ctx, i| {
         let mut mx = Mix(i);
         let cfg = *mx.pick(&cfgs);
         let s1 = *mx.pick(&syms);
@@ -809,7 +821,13 @@ pub fn def(tier: Tier) -> CheckDef {
             "left open (both readings accepted): data4/data8 on attributes whose only classes are section pointers in versions >= 4 (invalid DWARF), on DW_AT_data_member_location / DW_AT_start_scope / DW_AT_macros in versions 2-3, on the DWARF 5 *_base attributes; the class of block forms (block or exprloc); Attribute::form() for DW_FORM_indirect; accessor results on classes they are not documented for; skip_attributes when reading fails".into(),
             "the line-table variant of parse_attribute (src/read/line.rs) belongs to C04".into(),
         ],
-        subs: vec![sub_decode(tier), sub_lists(tier), sub_indirect(tier)],
+        subs: {
+            let mut v = vec![sub_decode(tier), sub_lists(tier), sub_indirect(tier)];
+            if tier == Tier::Quick {
+                v.push(sub_lists3_diagonal());
+            }
+            v
+        },
         required_outcomes: required,
     }
 }
